@@ -42,6 +42,11 @@ def run_scenario(model: Model, s):
                           f"{s.func} (scenario {s.name}) on path [{path}] applies an operation whose operand types cannot fit (a run-time error from "
                           f"torch, or a wrong axis count): {o.detail}"))
             continue
+        if o.kind == "raise" and s.valid_operands:
+            obs.append(Ob("E5-RAISE", pk, VIOLATED, model.where(f), s.name,
+                          f"{s.func} rejects valid operands ({s.name}): on path [{path}] it raises {o.exc or 'an exception'}"
+                          f"{' (' + o.detail[:80] + ')' if o.detail else ''} although the operands satisfy the documented compatibility conditions"))
+            continue
         if o.kind == "raise":
             if s.must_raise or o.exc:
                 lib = o.exc in ("ShapeMismatch", "IncompatibleTypes", "InvalidArguments", "NotImplementedError", "RankMismatch")
@@ -51,6 +56,8 @@ def run_scenario(model: Model, s):
             continue
         # return
         nret += 1
+        if s.valid_operands:
+            obs.append(Ob("E5-RAISE", pk, OK, model.where(f), s.name, f"valid operands ({s.name}) are accepted on path [{path}]"))
         if s.must_raise:
             obs.append(Ob("E5-RAISE", pk, VIOLATED, model.where(f), s.name,
                           f"incompatible operands ({s.name}) are accepted on path [{path}]: a value of type "
